@@ -469,6 +469,7 @@ func init() {
 		HangIsViolation:  true,
 		RaceCases:        200000,
 		Rule: "case k: 3 of 4 cases are hostile vectors (0-10 tokens, 1/60 with ~3000 tokens, 1/60 with a 64 kB token) over a dictionary of broken/odd tokens, random bytes, boundary numbers, and every declared short/long/command name in exact, mutated (case flip, truncation, insertion, deletion, byte substitution, namespace dropped), clustered and inline-argument forms, against a random declaration over the whole type pool (choices, optional arguments, required marks, bases, non-ASCII short names, 1% with choice tags on a no-argument option) under parser-option subset number (k/4 mod 32); every 4th case is a single injected fault of known kind. " +
+			"For k mod 7 = 2 one to three options registered through the public AddOption API (parser, group, command, command group; 8 kinds, with/without Default and short name) are added to the live parser and tokens naming them in every shape join the vector. " +
 			"Monitors on every call: recover() for panics (process death/hang via the parent's journal+watchdog), fd-level capture of stdout/stderr (zero bytes without PrintErrors; exactly err.Error()+newline once on the documented stream with it), every rejection is a *flags.Error of a documented type (never ErrUnknown or a raw error), sound implications (no option-shaped token => no option error, etc.), and for single faults the exact documented type. distinct = (mode, parser options, resulting type, vector length class).",
 		Assumptions: []string{"positional fields are strings and no UnknownOptionHandler is installed in this check; commands return nil except for the application-help fault class (Execute returns a *flags.Error of type ErrHelp), so every other error must come from the parser itself", "programmer errors (nil callbacks, callbacks with >1 parameter, base outside 2..36, non-pointer data) are preconditions"},
 		Technique:   "runtime safety monitors (panic/death/hang journal, fd-level stdout/stderr capture via dup2, typed-error check) over hostile generated workloads; Go race detector on a concurrent re-run in the thorough tier; metamorphic history monitor ([use, change of the public model, use] on one parser vs. a fresh parser of the changed declaration)",
